@@ -3,7 +3,7 @@
 # Applies a change to a scratch copy of /repo (under $TMPDIR, removed afterwards) and runs the command
 # with XDIS_REPO pointing at it.  /repo itself is never touched.
 set -e
-patch="$1"; shift; [ "$1" = "--" ] && shift
+patch="$1"; shift; [ -f "$patch" ] && patch=$(readlink -f "$patch"); [ "$1" = "--" ] && shift
 scratch=$(mktemp -d "${TMPDIR:-/tmp}/xdis-verif-mut-XXXXXX")
 trap 'rm -rf "$scratch"' EXIT
 rsync -a --exclude .git --exclude __pycache__ /repo/ "$scratch/"
